@@ -360,9 +360,18 @@ pub fn c04_check<const N: usize>(o: &Opts, rep: &mut Report) {
         }
     }
     rep.states += lay.states.len() as u64;
+    // "destroys a slot that does not hold a live element" also under a panicking destructor
+    if N <= 8 {
+        crate::faults::destroyed_twice_space::<N>("C04", &lay, o, rep, &|_a| true);
+    }
 }
 
 pub fn replay_c04<const N: usize>(c: &Case) -> Result<i32, String> {
+    if c.fault != "none" && !c.fault.is_empty() {
+        let mut c5 = Case { prop: "C05".into(), n: c.n, ctor: c.ctor.clone(), recipe: c.recipe.clone(), filling: c.filling.clone(), act: c.act.clone(), fault: c.fault.clone(), extra: c.extra.clone() };
+        c5.prop = "C05".into();
+        return crate::faults::replay_fault::<N>(&c5);
+    }
     let recipe = Recipe::parse(&c.ctor, &c.recipe).ok_or("bad recipe")?;
     let act = Act::parse(&c.act).ok_or("bad action")?;
     let filling = parse_filling(&c.filling).ok_or("bad filling")?;
@@ -1187,6 +1196,9 @@ pub fn c12_check<const N: usize>(o: &Opts, rep: &mut Report) {
         rep.evaluations += 1;
     }
     finish_space(rep, &sp);
+    if N <= 8 {
+        crate::faults::destroyed_twice_space::<N>("C12", &sp, o, rep, &|a| matches!(a, Act::ExtendFromBuf(..) | Act::IntoIter(..) | Act::IntoIterCloneFrom(..) | Act::CloneFrom(..) | Act::Extend(..)));
+    }
     if o.shard.0 == 0 {
         crate::zst::zst_twin::<N>("C12", rep);
     }
@@ -1236,6 +1248,10 @@ pub fn c12_independence<const N: usize>(recipe: &Recipe) -> Vec<Problem> {
 }
 
 pub fn replay_c12<const N: usize>(c: &Case) -> Result<i32, String> {
+    if c.fault != "none" && !c.fault.is_empty() {
+        let c5 = Case { prop: "C05".into(), n: c.n, ctor: c.ctor.clone(), recipe: c.recipe.clone(), filling: c.filling.clone(), act: c.act.clone(), fault: c.fault.clone(), extra: c.extra.clone() };
+        return crate::faults::replay_fault::<N>(&c5);
+    }
     if c.act == "ctor-only" {
         return crate::checks::replay_bfs::<N>(c);
     }
